@@ -3,6 +3,9 @@ import os, re, json, tarfile, io
 from .common import *
 from ..schema import protoparse as PP, wire as W
 
+# "artifacts written by earlier releases remain readable" also needs the layer media types to stay the
+# published ones (ARTIFACT.md): decided by the C20.types rules, re-decided here
+RELIES_ON = {'C20': ['C20.types']}
 RELEASE_TWIN = False      # derive output is profile independent; the schema tables are not MIR-shape rules
 
 
@@ -332,6 +335,7 @@ def check(ctx):
     for k, m in msgs.items():
         nums = [f['number'] for f in m['fields']]; names = [f['name'] for f in m['fields']]
         ctx.check(len(nums) == len(set(nums)) and len(names) == len(set(names)), 'C07.schema/unique/' + k, 'T-SCHEMA', m['file'], 'duplicate field numbers or names')
+    history_rules(ctx, msgs, enums)
     ctx.floor('C07.rust', 150); ctx.floor('C07.python', 140); ctx.floor('C07.schema', 30)
 
 
@@ -342,28 +346,40 @@ def wire_sig(msgs, enums, full, f):
     return [f['number'], wt, lab if lab != 'oneof' else 'oneof']
 
 
-def thorough(ctx):
-    repo = getattr(ctx, 'repo', '/repo')
-    msgs, enums, files = PP.load(os.path.join(repo, 'proto'))
-    # (a) wire history: every (message, number, wire type, label) of the pinned schema is still there
+def history_rules(ctx, msgs, enums):
+    """wire history: every (message, number, wire type, label) of the pinned schema is still there, and a
+    field name that still exists keeps its number (two same-typed fields swapping numbers is invisible
+    to the wire signature but swaps their meaning for every message written before)"""
     hist = json.load(open(os.path.join(os.path.dirname(__file__), 'tables', 'C07_pinned_schema.json')))
     for full, rows in sorted(hist['messages'].items()):
         m = msgs.get(full)
         if m is None:
             ctx.bad('C07.history/message/' + full, 'T-SCHEMA', 'proto/', 'message of the pinned schema was removed'); continue
         cur = {f['number']: wire_sig(msgs, enums, full, f) for f in m['fields']}
+        num_of = {f['name']: f['number'] for f in m['fields']}
         reserved = set()
         for r in m['reserved']:
             for x in r:
                 if re.fullmatch(r'\d+', x): reserved.add(int(x))
-        for num, wt, lab in rows:
+        for row in rows:
+            num, wt, lab = row[:3]
             c = cur.get(num)
             ok = (c is not None and c[1] == wt and (c[2] == lab or {c[2], lab} <= {'singular', 'optional', 'oneof'})) or (c is None and num in reserved)
             ctx.check(ok, 'C07.history/field/%s#%d' % (full, num), 'T-SCHEMA', m['file'], 'field %d of the pinned schema (wire type %d, %s) is now %s' % (num, wt, lab, c), m['file'])
+            if len(row) > 3:
+                name = row[3]
+                ctx.check(num_of.get(name, num) == num, 'C07.history/name/%s.%s' % (full, name), 'T-SCHEMA', m['file'],
+                          'field `%s` had number %d in the pinned schema and has %s now: messages written before are read with another meaning' % (name, num, num_of.get(name)), m['file'])
     for full, vals in sorted(hist['enums'].items()):
         e = enums.get(full)
         ok = e is not None and all(v in e['values'].values() for v in vals)
         ctx.check(ok, 'C07.history/enum/' + full, 'T-SCHEMA', 'proto/', 'enum numbers of the pinned schema %s are no longer all declared (%s)' % (vals, e and sorted(e['values'].values())))
+    ctx.floor('C07.history', 220)
+
+
+def thorough(ctx):
+    repo = getattr(ctx, 'repo', '/repo')
+    msgs, enums, files = PP.load(os.path.join(repo, 'proto'))
     # (b) the stored 2024 artifact decodes under today's schema
     path = os.path.join(repo, 'data', 'random_lp_instance.ommx')
     try:
@@ -382,7 +398,7 @@ def thorough(ctx):
             ctx.sample(dict(artifact='data/random_lp_instance.ommx', layer=l['digest'][:19], bytes=len(blob), **stats))
     except Exception as ex:
         ctx.bad('C07.artifact/readable', 'T-SCHEMA', path, 'cannot read the stored artifact: %r' % ex)
-    ctx.floor('C07.history', 100); ctx.floor('C07.artifact', 2)
+    ctx.floor('C07.artifact', 2)
 
 
 def decode_check(msgs, enums, full, blob, stats, bad, path, depth=0):
